@@ -171,9 +171,9 @@ def _vol_natives(leaf):
     """ValueOrList values built through the class's own constructors (not through a conversion)."""
     from pane.types import ValueOrList
     table = {
-        'vol_int': [('val', 5), ('list', [1, 2]), ('list', [])],
-        'vol_str': [('val', 'a'), ('list', ['a', 'b'])],
-        'vol_tuple': [('val', (1, 2)), ('list', [(1, 2), (3, 4)])],
+        'vol_int': [('val', 5), ('list', [1, 2]), ('list', []), ('list', [5])],
+        'vol_str': [('val', 'a'), ('list', ['a', 'b']), ('list', ['a'])],
+        'vol_tuple': [('val', (1, 2)), ('list', [(1, 2), (3, 4)]), ('list', [(1, 2)])],
         'vol_list': [('val', [1, 2]), ('list', [[1], [2, 3]]), ('val', []), ('list', []), ('list', [[]])],
     }
     return [ValueOrList.from_val(x) if k == 'val' else ValueOrList.from_list(x) for k, x in table.get(leaf, [])]
